@@ -1187,9 +1187,12 @@ class Deferred(Awaitable[_SelfResultT]):
 
             if isinstance(result, Failure):
                 # Clear the failure on debugInfo so it doesn't raise "unhandled
-                # exception"
-                assert self._debugInfo is not None
-                self._debugInfo.failResult = None
+                # exception".  There is no debugInfo yet when we are awaited
+                # from inside our own callback chain (a coroutine that was
+                # waiting on us, was resumed with our failure and awaits us
+                # again): _runCallbacks only creates it once the chain is done.
+                if self._debugInfo is not None:
+                    self._debugInfo.failResult = None
                 result.raiseException()
             else:
                 return result  # type: ignore[return-value]
